@@ -47,6 +47,8 @@ TRUSTED = ['harness seams replaced by recorders',
            'tree stream: executions and task executions are identified by creation rank; state_info / output are compared '
            'by class (none / the operator message / engine-computed)']
 LEAN_MODULES = ['Mistral.Props.C11', 'Mistral.Props.C11Tree']
+# second/third round: the C11Tree theorems are at full strength and hold for EVERY event history (stops, pause and
+# resume commands with their propagation, lost post-commit operations); see docs/C11.md
 
 
 def correspond(ctx):
@@ -58,7 +60,7 @@ def correspond(ctx):
                      + [{'n_programs': ctx.n(10, 300), 'mode': 'mixed'}] * 7)
     par.run_parallel(ctx, 'harness.engine_stream', 'run_chunk',
                      [{'n_programs': ctx.n(10, 300), 'props': ['C11'], 'mode': 'stop'}] * 14)
-    par.run_parallel(ctx, 'harness.tree_stream', 'run_chunk', [{'n_cases': ctx.n(8, 120)}] * 14)
+    par.run_parallel(ctx, 'harness.tree_stream', 'run_chunk', [{'n_cases': ctx.n(8, 120), 'props': ['C11']}] * 14)
 
 
 def search(ctx):
